@@ -11,7 +11,8 @@ Theorem c11_source_shape :
   connection_connection_handle_stmt_execute_ok = true /\ connection_connection_handle_stmt_reset_ok = true /\
   connection_connection_handle_stmt_close_ok = true /\ connection_connection_get_stmt_ok = true /\
   utils_cooperative_iterate_ok = true /\ utils_aiterate_ok = true /\
-  status_cursor_exists = FL_CURSOR_EXISTS /\ status_last_row_sent = FL_LAST_ROW_SENT.
+  status_cursor_exists = FL_CURSOR_EXISTS /\ status_last_row_sent = FL_LAST_ROW_SENT /\
+  packets_parse_handle_stmt_fetch_ok = true /\ packets_read_cursor_flags_ok = true.
 Proof. repeat split; reflexivity. Qed.
 
 (* one fetch of `want` rows on a cursor whose source still holds `items` (rows, waits, possibly a raise):
